@@ -206,23 +206,19 @@ func (m *Machine) show(text string, always bool) {
 func (m *Machine) Exec(op Op) error {
 	switch op.Name {
 	case "q":
-		if m.inText {
-			return fmt.Errorf("q inside a text object")
-		}
+		// Figure 9 does not allow q, Q and cm inside a text object, yet files contain them and every consumer
+		// gives them their usual meaning there: the graphics state (CTM, text state parameters) is saved and
+		// restored, the text matrices - which are not part of it (§9.4.1) - are left alone. Whether Q also puts
+		// the text matrix back is where consumers differ; generators avoid showing text after a Q inside a text
+		// object before the text line matrix has been used again (Td, TD, T*, ', ").
 		m.stack = append(m.stack, m.gs)
 	case "Q":
-		if m.inText {
-			return fmt.Errorf("Q inside a text object")
-		}
 		if len(m.stack) == 0 {
 			return fmt.Errorf("Q without q")
 		}
 		m.gs = m.stack[len(m.stack)-1]
 		m.stack = m.stack[:len(m.stack)-1]
 	case "cm":
-		if m.inText {
-			return fmt.Errorf("cm inside a text object")
-		}
 		if err := need(op, 6); err != nil {
 			return err
 		}
